@@ -25,7 +25,7 @@ from vf.core import h64
 
 PROP = "C20"
 SHARDS = {"quick": 8, "thorough": 16}
-TIME_CAP = {"quick": 48, "thorough": 780}
+TIME_CAP = {"quick": 48, "thorough": 720}
 RECURSION_LIMIT = 800
 REQUIRED = ["threads_started", "concurrent_calls", "overlap_first_use_calls", "overlap_in_analysis", "monitored_cache_writes",
             "hook_events", "schedules_executed", "schedules_parked", "injected_yields", "quiescence_truth_checks",
@@ -824,11 +824,11 @@ def run(env):
         env.count("phase_ms:systematic", int(1000 * (time.time() - t)))
         t = time.time()
         if not state.hang:
-            stress(state, "stress", env.n(192, 6400), 0.0, env.t0 + 0.78 * cap)
+            stress(state, "stress", env.n(192, 3200), 0.0, env.t0 + 0.78 * cap)
         env.count("phase_ms:stress", int(1000 * (time.time() - t)))
         t = time.time()
         if not state.hang:
-            stress(state, "yield", env.n(128, 3200), 0.08, env.t0 + cap)
+            stress(state, "yield", env.n(128, 1600), 0.08, env.t0 + cap)
         env.count("phase_ms:yield", int(1000 * (time.time() - t)))
     finally:
         if not state.hang:
